@@ -11,7 +11,8 @@ CLAIMED = {
         text="Lean 4 theorems (push/pop refinement to an abstract (len,content) stack, unbounded push/pop sequence round "
              "trip by list induction, LSB bijection, bits_for minimality) about definitions REGENERATED from packed.rs on "
              "every run; every run also executes the real Packed, the Lean model and a big-int oracle on the same "
-             "push/pop/lsb sequences.",
+             "push/pop/lsb sequences."
+             ' constructors: new / new_from_lsb refuse exactly zero, new_from_lsb inverts into_lsb and is defined on every non-zero word, clear gives the empty key.',
         note="Trusted: Lean kernel; bv_decide axioms for single-word lemmas; the Rust-expression translator "
              "extract/gen_packed.py; 64-bit usize; harness pk.rs and the Python stack oracle.",
         tech="machine-checked proof in Lean 4 (bv_decide word lemmas + list induction) over a model regenerated from "
@@ -21,9 +22,10 @@ CLAIMED = {
              "minus first segment (with a characterisation of the split spec), no slice off a char boundary, fused; "
              "JsonPathIter parses any mixture of the four notations of delimiter-free names back to the names, never "
              "panics, is fused and terminates. Model hand-written with byte-offset slicing; each run executes model and "
-             "implementation on all strings up to length 5 (6 thorough) over an 8-symbol alphabet.",
-        note="Trusted: Lean kernel; hand-written Model/PathIter.lean tied to node.rs/jsonpath.rs only by the "
-             "correspondence run; Python str.split oracle.",
+             "implementation on all strings up to length 5 (6 thorough) over an 8-symbol alphabet."
+             " source_iterators_are_model: PathIter::next and JsonPathIter::next as TRANSLATED from node.rs / jsonpath.rs on every run (byte-offset arithmetic, the four rules in source order) equal the model's next / jnext for every separator, text and state.",
+        note="Trusted: Lean kernel; the Rust-subset translator (extract/minirust.py, rust2lean.py, gen_text.py) and its assumed "
+             "semantics of core::str operations (Model/PathIter.lean primitives, validated by the correspondence run); Python str.split oracle.",
         tech="machine-checked proof in Lean 4 (induction on List Char with byte-offset lemmas) + exhaustive "
              "model-vs-implementation correspondence run"),
 
@@ -32,11 +34,13 @@ CLAIMED = {
         note='Model of NodeIter/traverse_by_key is hand-written and tied by the correspondence run. Trusted: Lean kernel, typegen.py/spec.py, rt.rs.',
         tech='Lean 4 proof (successor orbit + carry-chain induction over a hand-written model) + model-vs-implementation correspondence and schema-enumeration oracle'),
     "C04": dict(
-        text="Lean 4 theorems: chaining = concatenation (bisimulation of key sources); traverse_factor: every traversal with any key source factors through a valid node path with exactly one callback per consumed key carrying that level's index, name and sibling count (callback_once_per_key: Ok depth = number of callbacks); any_key_any_target: what a target with enough capacity holds is a function of that path only, equal to what the position tuple produces, so all keys of one node are interchangeable; index_form_is_position (+ fixpoint); packed_form_resolves (the packed form decodes back to the node); path_text_roundtrip and jsonpath_text_roundtrip (render along the node path, split with the iterators of C15, look names / decimal indices up again = the same walk as the position tuple). Every run transcodes every node of every corpus type between 9 source and 10 target representations, checks the recording callback and Chain at every split point.",
+        text="Lean 4 theorems: chaining = concatenation (bisimulation of key sources); traverse_factor: every traversal with any key source factors through a valid node path with exactly one callback per consumed key carrying that level's index, name and sibling count (callback_once_per_key: Ok depth = number of callbacks); any_key_any_target: what a target with enough capacity holds is a function of that path only, equal to what the position tuple produces, so all keys of one node are interchangeable; index_form_is_position (+ fixpoint); packed_form_resolves (the packed form decodes back to the node); path_text_roundtrip and jsonpath_text_roundtrip (render along the node path, split with the iterators of C15, look names / decimal indices up again = the same walk as the position tuple). Every run transcodes every node of every corpus type between 9 source and 10 target representations, checks the recording callback and Chain at every split point."
+             " source_key_find_is_model: <str as Key>::find and the integer Key impls as TRANSLATED from key.rs on every run equal the model's Key.find.",
         note="Separator / delimiter characters must not occur in the key texts on the path (the code debug_asserts this). bv_decide axioms via the packed-word lemmas.",
         tech='Lean 4 proof (factorisation by schema induction, bisimulation) + exhaustive-over-corpus correspondence and oracle'),
     "C06": dict(
-        text="Lean 4 theorems for every schema: count = number of leaves; max_depth, max_bits and max_length are each attained by some leaf and exceeded by none (generic per-level weights, digits monotone); buffers_suffice: an index array of max_depth slots holds every node's key (= its position tuple) and, when max_bits <= 63, a packed word holds every node's key using at most max_bits bits; path_buffer_suffices: a Path buffer of max_length + max_depth separators holds the Path of every node. Every run compares Metadata and a recording Walk with brute force on every corpus type (array lengths straddling powers of 2 and 10) and transcodes every node into buffers sized from the metadata.",
+        text="Lean 4 theorems for every schema: count = number of leaves; max_depth, max_bits and max_length are each attained by some leaf and exceeded by none (generic per-level weights, digits monotone); buffers_suffice: an index array of max_depth slots holds every node's key (= its position tuple) and, when max_bits <= 63, a packed word holds every node's key using at most max_bits bits; path_buffer_suffices: a Path buffer of max_length + max_depth separators holds the Path of every node. Every run compares Metadata and a recording Walk with brute force on every corpus type (array lengths straddling powers of 2 and 10) and transcodes every node into buffers sized from the metadata."
+             " source_internal_is_model / source_internal_array_is_model / source_leaf_and_max_length: <Metadata as Walk>::internal, leaf and Metadata::max_length as TRANSLATED from walk.rs on every run never panic on a well-formed node and return exactly the model's merge (all four fields).",
         note='A user-supplied Walk seeing every node with its declared children is checked by the run only (Metadata is the modelled walker). bv_decide axioms via the packed-word lemmas. Assumes count < 2^64.',
         tech='Lean 4 proof by structural induction + correspondence/oracle run'),
     "C09": dict(
@@ -44,7 +48,8 @@ CLAIMED = {
         note='bv_decide axioms as in C08. max_bits <= 63.',
         tech='Lean 4 proof (bv_decide word lemmas + list/path induction) + correspondence/oracle run'),
     "C11": dict(
-        text="Lean 4 theorems for every well-formed type: limited_exact (for EVERY depth limit D and every target whose callbacks do not panic, polling yields, in order and once each, one item per leaf of the type cut off at depth D — depth_limited_items: exactly the leaves of depth <= D and the internal nodes at depth D — as the node with the transcoded target, or Err(depth) where the target refused the key at that depth; then None for ever; at most D+2 loop passes per call, no panic site); rooted_exact (iteration rooted at the node any key denotes = the leaves at or below it, by simulation with the subtree's iterator); full_depth_exact; exact_size_remaining; fused; targets_do_not_panic ((), index arrays of any capacity). Every run iterates every corpus type for every depth limit, every (sampled) node as root in several key representations, index/path capacities from 0 to sufficient, polling past the end.",
+        text="Lean 4 theorems for every well-formed type: limited_exact (for EVERY depth limit D and every target whose callbacks do not panic, polling yields, in order and once each, one item per leaf of the type cut off at depth D — depth_limited_items: exactly the leaves of depth <= D and the internal nodes at depth D — as the node with the transcoded target, or Err(depth) where the target refused the key at that depth; then None for ever; at most D+2 loop passes per call, no panic site); rooted_exact (iteration rooted at the node any key denotes = the leaves at or below it, by simulation with the subtree's iterator); full_depth_exact; exact_size_remaining; fused; targets_do_not_panic ((), index arrays of any capacity). Every run iterates every corpus type for every depth limit, every (sampled) node as root in several key representations, index/path capacities from 0 to sufficient, polling past the end."
+             " source_next_is_model: one pass through the loop of NodeIter::next as TRANSLATED from iter.rs on every run (statement-level Rust-subset translator, the two transcode calls as parameters) equals the model's IterSt.step for every type, target, depth limit and state; NodeIter::default likewise.",
         note="The combination 'rooted AND limited below the subtree's depth / without capacity' follows from the same lemmas (poll_lift, poll_init_G) but is not stated as its own theorem; it is covered by the runs.",
         tech='Lean 4 proof (generalised enumeration theorem over the cut-off type, simulation for roots) + correspondence and brute-force oracle'),
 
@@ -53,7 +58,8 @@ CLAIMED = {
         note='Accessors/validators must not alias other fields (generated ones own their storage). Histories are covered as repeated single steps.',
         tech='Lean 4 proof by mutual structural induction over the nested tree + snapshot-based correspondence/oracle'),
     "C02": dict(
-        text='Lean 4 theorems: one_walk (for every well-formed tree, runtime state, operation, codec and key source the result is either pre-empted by something state/value dependent, or exactly the outcome of the type-level traversal of the erased type); operations_agree (any two operations/codecs/states of one type agree unless pre-empted); structural_depths (Ok/TooShort/TooLong carry the number of keys consumed, NotFound one more); indices_in_range; the per-node step order as equations. Every run compares serialize/deserialize/ref_any/mut_any outcomes on every instance x node path x malformed key alphabet x key representation with the model and the independent Python top-down interpreter.',
+        text='Lean 4 theorems: one_walk (for every well-formed tree, runtime state, operation, codec and key source the result is either pre-empted by something state/value dependent, or exactly the outcome of the type-level traversal of the erased type); operations_agree (any two operations/codecs/states of one type agree unless pre-empted); structural_depths (Ok/TooShort/TooLong carry the number of keys consumed, NotFound one more); indices_in_range; the per-node step order as equations. Every run compares serialize/deserialize/ref_any/mut_any outcomes on every instance x node path x malformed key alphabet x key representation with the model and the independent Python top-down interpreter.'
+             " source_bookkeeping_is_model and source_containers_are_model: Traversal::increment/depth, Error::increment_result, KeyLookup::lookup/len, Node::try_from and TreeKey::traverse_by_key of every built-in container (tuples 1-8, arrays, Result, Bound, Range*), as TRANSLATED from error.rs / key.rs / node.rs / impls.rs on every run, equal the model's definitions (the transparent wrappers are checked to be plain delegations).",
         note='The depth of pre-empting errors (Absent/Access/Invalid) is given by the step equations and the run, not by a global theorem.',
         tech='Lean 4 proof (mutual induction relating the value-level walk to the type-level traversal) + three-way differential run'),
     "C05": dict(
